@@ -338,7 +338,7 @@ def build(tier):
             'DEFINEDNESS every division by a header-derived value has a non-zero divisor, `total *= dims[i]` never overflows, no value-changing conversion; resize is reached at most once and only with validated '
             'dims, a rejected header leaves the tensor untouched; istream::read gets a non-negative count and a block of that many scalars',
             'parameter_t::read / write (src/parameter.cpp; specs/C15/paramrw.py, param_rw.h; variant storage as {index, a1..a6}, std::visit / switch extracted arm by arm): '
-            'parameter_roundtrip = the property itself on both real bodies inlined down to istream::read / ostream::write: for EVERY well-formed parameter p (any alternative) and EVERY prior content of the '
+            'parameter_roundtrip_alt0..6 (one target per alternative written) = the property itself on both real bodies inlined down to istream::read / ostream::write: for EVERY well-formed parameter p (any alternative) and EVERY prior content of the '
             'destination q, write(p) then read(q) yields q == p -- same alternative (an empty parameter resets a used object), name, every member of the active record (doubles by bit pattern), enum value and domain, '
             'string value -- consumes exactly the bytes and as many fields as were written, and does not throw unless an allocation fails; '
             'parameter_read (any stream, any destination): failed stream => exception, normal return => stream good, unknown tag => exception, normal return => -1 <= tag <= 5 and the ACTIVE ALTERNATIVE IS THE ONE OF THE TAG '
